@@ -11,11 +11,24 @@ thread_local! {
     static LARGEST: Cell<usize> = const { Cell::new(0) };
 }
 
+/// Hard ceiling on the live bytes of one thread.  Nothing these checks run legitimately holds more than a few hundred
+/// MiB; a run-away allocation loop in the code under test would otherwise take the whole machine down.  Exceeding it
+/// aborts the process (a global allocator must not unwind); the abort journal then names the case.
+pub const THREAD_LIVE_LIMIT: isize = 12 << 30;
+
 #[inline]
 fn add(n: usize) {
     let _ = CURRENT.try_with(|c| {
         let v = c.get() + n as isize;
         c.set(v);
+        if v > THREAD_LIVE_LIMIT {
+            const MSG: &[u8] = b"memory allocation ceiling of the checker exceeded: one thread holds more than 12 GiB (run-away allocation in the code under test)\n";
+            // SAFETY: write(2) on stderr and abort() are async-signal-safe and do not allocate
+            unsafe {
+                libc::write(2, MSG.as_ptr() as *const libc::c_void, MSG.len());
+                libc::abort();
+            }
+        }
         let _ = PEAK.try_with(|p| {
             if v > p.get() {
                 p.set(v);
